@@ -117,13 +117,27 @@ pub fn gen(seed: u64, n: usize, _tier: &str) -> Vec<Case> {
         c(&[b"XADD", k, b"9-0", b"f", b"v"]), c(&[b"XADD", k, b"1-0", b"f", b"v"]), c(&[b"XADD", k, b"*", b"f", b"v"]), c(&[b"XADD", k, b"9-0", b"f"]),
         c(&[b"XTRIM", k, b"MAXLEN", b"0"]), c(&[b"XTRIM", k, b"MAXLEN", b"100"]), c(&[b"XDEL", k, b"5-0"]), c(&[b"XDEL", k, b"99-0"]),
         c(&[b"DEL", k]), c(&[b"RENAME", k, o]), c(&[b"EXPIRE", k, b"100"]), c(&[b"PERSIST", k]), c(&[b"SET", k, b"v"]),
-        // consumer-group commands: they change the key's group state but the engine never marks
-        // the key for that (finding stream-group-writes-unmarked); the model says the same
+        // consumer-group commands change the key's group state (behind an Arc outside the engine):
+        // after ed8ba04 the handlers mark the key when they changed something (formerly finding
+        // stream-group-writes-unmarked).  Each is followed by its no-change twins, which must not abort.
         c(&[b"XGROUP", b"CREATE", k, b"g2", b"0"]), c(&[b"XGROUP", b"CREATE", k, b"g2", b"$", b"MKSTREAM"]), c(&[b"XGROUP", b"CREATE", k, b"g2", b"abc", b"MKSTREAM"]),
-        c(&[b"XGROUP", b"DESTROY", k, b"g"]), c(&[b"XGROUP", b"SETID", k, b"g", b"0"]), c(&[b"XGROUP", b"CREATECONSUMER", k, b"g", b"c9"]),
-        c(&[b"XGROUP", b"DELCONSUMER", k, b"g", b"c1"]), c(&[b"XREADGROUP", b"GROUP", b"g", b"c2", b"STREAMS", k, b">"]),
-        c(&[b"XREADGROUP", b"GROUP", b"g", b"c2", b"NOACK", b"STREAMS", k, b">"]), c(&[b"XREADGROUP", b"GROUP", b"g", b"c2", b"STREAMS", k, b"0"]),
-        c(&[b"XACK", k, b"g", b"5-0"]), c(&[b"XACK", k, b"g", b"6-0"]), c(&[b"XCLAIM", k, b"g", b"c2", b"0", b"5-0"]),
+        c(&[b"XGROUP", b"CREATE", k, b"g", b"0"]),                                   // BUSYGROUP (or created when there is none)
+        c(&[b"XGROUP", b"DESTROY", k, b"g"]), c(&[b"XGROUP", b"DESTROY", k, b"nogroup"]),
+        c(&[b"XGROUP", b"SETID", k, b"g", b"0"]), c(&[b"XGROUP", b"SETID", k, b"g", b"$"]), c(&[b"XGROUP", b"SETID", k, b"g", b"5-"]), c(&[b"XGROUP", b"SETID", k, b"nogroup", b"0"]),
+        c(&[b"XGROUP", b"CREATECONSUMER", k, b"g", b"c9"]), c(&[b"XGROUP", b"CREATECONSUMER", k, b"g", b"c1"]), c(&[b"XGROUP", b"CREATECONSUMER", k, b"nogroup", b"c1"]),
+        c(&[b"XGROUP", b"DELCONSUMER", k, b"g", b"c1"]), c(&[b"XGROUP", b"DELCONSUMER", k, b"g", b"c9"]), c(&[b"XGROUP", b"DELCONSUMER", k, b"nogroup", b"c1"]),
+        c(&[b"XREADGROUP", b"GROUP", b"g", b"c2", b"STREAMS", k, b">"]),
+        c(&[b"XREADGROUP", b"GROUP", b"g", b"c2", b"NOACK", b"STREAMS", k, b">"]),
+        c(&[b"XREADGROUP", b"GROUP", b"g", b"c2", b"COUNT", b"0", b"STREAMS", k, b">"]),      // returns nothing
+        c(&[b"XREADGROUP", b"GROUP", b"g", b"c1", b"STREAMS", k, b"0"]),                        // the owner reads its history: entries
+        c(&[b"XREADGROUP", b"GROUP", b"g", b"c1", b"STREAMS", k, b"5-0"]),                      // ... nothing above the ID
+        c(&[b"XREADGROUP", b"GROUP", b"g", b"c2", b"STREAMS", k, b"0"]),                        // registers c2, returns nothing (group-reread-unmarked)
+        c(&[b"XREADGROUP", b"GROUP", b"g", b"c2", b"STREAMS", o, k, b">", b">"]),               // another key first
+        c(&[b"XREADGROUP", b"GROUP", b"g", b"c2", b"STREAMS", k, b"nokey", b">", b"bad"]),      // a missing key is skipped
+        c(&[b"XREADGROUP", b"GROUP", b"nogroup", b"c2", b"STREAMS", k, b">"]),
+        c(&[b"XACK", k, b"g", b"5-0"]), c(&[b"XACK", k, b"g", b"6-0"]), c(&[b"XACK", k, b"nogroup", b"5-0"]), c(&[b"XACK", k, b"g", b"5-"]),
+        c(&[b"XCLAIM", k, b"g", b"c2", b"0", b"5-0"]), c(&[b"XCLAIM", k, b"g", b"c2", b"0", b"99-0"]), c(&[b"XCLAIM", k, b"g", b"c2", b"1000000", b"5-0"]),
+        c(&[b"XCLAIM", k, b"nogroup", b"c2", b"0", b"5-0"]), c(&[b"XCLAIM", k, b"g", b"c2", b"x", b"5-0"]),
         // reads must not abort
         c(&[b"XRANGE", k, b"-", b"+"]), c(&[b"XREVRANGE", k, b"+", b"-"]), c(&[b"XLEN", k]), c(&[b"XREAD", b"STREAMS", k, b"0"]),
         c(&[b"XPENDING", k, b"g"]), c(&[b"XPENDING", k, b"g", b"-", b"+", b"10"]), c(&[b"XINFO", b"STREAM", k]), c(&[b"XINFO", b"GROUPS", k]),
